@@ -507,6 +507,32 @@ R94_REVIEWED = {
 }
 
 
+def tokenizer_aware(ctx, fi, endswith_call) -> bool:
+    """The bare `line.endswith(backslash)` test is made comment-aware by what it guards: under it, the line is taken for continued only if
+    its index is not in a set of *lines that hold a COMMENT token* (a helper of the package that asks the tokenizer; a `#` inside a string is
+    not a comment, which a regular expression over the line cannot know)."""
+    from ..struct import parent_map
+    comment_funcs = getattr(ctx, '_comment_funcs', None)
+    if comment_funcs is None:
+        comment_funcs = ctx._comment_funcs = {g.name for g in ctx.repo.all_funcs() if not isinstance(g.node, ast.Lambda) and
+                                              any(isinstance(y, ast.Name) and y.id == 'COMMENT' for y in ast.walk(g.node)) and
+                                              any(isinstance(y, ast.Call) and call_name(y) in ('tokenize', 'tokenize_tokenize', 'generate_tokens')
+                                                  for y in ast.walk(g.node))}
+    if not comment_funcs:
+        return False
+    par = parent_map(fi.node)
+    cur = endswith_call
+    while cur in par and not isinstance(par[cur], ast.If):
+        cur = par[cur]
+    iff = par.get(cur)
+    if not isinstance(iff, ast.If) or not any(y is endswith_call for y in ast.walk(iff.test)):
+        return False
+    sets = {t.id for a in ast.walk(fi.node) if isinstance(a, ast.Assign) and isinstance(a.value, (ast.Call, ast.IfExp)) and
+            any(isinstance(y, ast.Call) and call_name(y) in comment_funcs for y in ast.walk(a.value)) for t in a.targets if isinstance(t, ast.Name)}
+    return any(isinstance(y, ast.Compare) and len(y.ops) == 1 and isinstance(y.ops[0], (ast.In, ast.NotIn)) and
+               isinstance(y.comparators[0], ast.Name) and y.comparators[0].id in sets for b in iff.body for y in ast.walk(b))
+
+
 def check_continuation_tests(ctx):
     from ..model import walk_no_nested
     ctx.rule('R9.4', 'a physical source line is taken for continued only by a comment-aware test, never by a bare endswith(backslash)', 1)
@@ -547,6 +573,10 @@ def check_continuation_tests(ctx):
                 counts[k] = counts.get(k, 0) + 1
                 rv = R94_REVIEWED.get(k)
                 ok = bool(rv) and counts[k] <= 1     # one reviewed site per function: a second one is new
+                if not ok and tokenizer_aware(ctx, fi, c):
+                    counts[k] -= 1
+                    ctx.ok('R9.4', f'{fi.module}|{fi.qualname}|{norm(c, 60)} (lines with a comment excluded through the tokenizer)')
+                    continue
                 ctx.check('R9.4', ok, fi.module, fi.qualname, f'{norm(c, 60)} #{counts[k]}',
                           'a source line ending in a backslash is taken for a line continuation, but a comment may end in a backslash too: the '
                           'node is then believed to be one logical line and is left without the parentheses it needs (unparsable result)',
